@@ -1229,6 +1229,69 @@ def run(ctx):
 
     from .common import redirect_target_guarded_rule
     redirect_target_guarded_rule(ctx, 'C09-D3')
+    # the robots.txt fetch follows redirects itself (no URL filter stands in between, as it does for pages): a Location with a scheme
+    # the HTTP client cannot fetch (mailto:, ftp:, data:) must be turned down before the session is started on it - the client would
+    # hand host None to the connection pool, whose assertion is no per-URL error
+    rf = repo.func('wpull.protocol.http.robots:RobotsTxtChecker.fetch_robots_txt')
+    rcfg = ctx.cfg(rf)
+    from .. import flow as F2
+    rloops = [n for n in rcfg.nodes if n.kind == 'while' and any(U.attr_name(c) == 'done' for c in U.calls(n.stmt.test))]
+    rstarts = [n for n in rcfg.stmt_nodes() if any(U.attr_name(c) == 'start' and 'session' in norm_text(c.func.value) for c in F2.node_calls(n))]
+    if not rstarts:
+        raise AnalysisError('fetch_robots_txt: session.start() not found')
+    if rloops:
+        def scheme_test(n):
+            if n.kind != 'if':
+                return False
+            t = n.stmt.test
+            has_scheme = any(isinstance(y, ast.Attribute) and y.attr == 'scheme' for y in ast.walk(t))
+            nxt = any(isinstance(c, ast.Call) and U.attr_name(c) in ('next_request', 'next_location') for c in ast.walk(t)) or any(
+                isinstance(y, ast.Name) and any(v is not None and any(isinstance(c, ast.Call) and U.attr_name(c) in ('next_request', 'next_location') for c in ast.walk(v))
+                                                for v, k, st in U.local_defs(rf.node).get(y.id, [])) for y in ast.walk(t))
+            verdict = any(isinstance(c, ast.Call) and U.attr_name(c) in ('consult_filters', 'test', 'test_info') for c in ast.walk(t))
+            return (has_scheme and nxt) or verdict
+        p_ = rcfg.find_path(rloops[0], lambda x: x in rstarts, edge_ok=F2.normal, stop=scheme_test)
+        ck.expect(p_ is None, 'C09-D2', rf.qual, 'a redirect of robots.txt is followed only to a scheme the HTTP client can fetch',
+                  'the loop restarts the session on whatever the Location names: `302 Location: mailto:a@b` for /robots.txt makes the client '
+                  'ask the connection pool for host None, and its assertion error ends the crawl', rf.loc(rstarts[0].stmt))
+    else:
+        ck.ok('C09-D2', rf.qual, 'robots.txt is requested once (no redirect loop)')
+    # the processors give a response its body only after the file writer had its say on the header (`if not response.body:
+    # response.body = Body(...)`), and the writer may refuse with a per-URL error (--continue, server ignores Range).  The handlers
+    # of that try therefore meet a response whose body is still None: every `<response>.body.<x>` in them is guarded by the body
+    n_h = 0
+    for f in repo.funcs.values():
+        if f.module.name not in ('wpull.processor.web', 'wpull.processor.ftp'):
+            continue
+        for tr in [x for x in walk_no_nested(f.node) if isinstance(x, ast.Try)]:
+            late = [st for st in ast.walk(ast.Module(body=tr.body, type_ignores=[])) if isinstance(st, ast.Assign) and any(
+                isinstance(t, ast.Attribute) and t.attr == 'body' and isinstance(t.value, ast.Name) for t in st.targets)]
+            if not late:
+                continue
+            var = next(t.value.id for t in late[0].targets if isinstance(t, ast.Attribute))
+            calls_before = [c for st in tr.body for c in U.calls(st) if c.lineno < late[0].lineno and U.attr_name(c) not in ('debug', 'info')]
+            if not calls_before:
+                continue
+            for h in tr.handlers:
+                pm = U.parents(h)
+                for x in ast.walk(h):
+                    if isinstance(x, ast.Attribute) and isinstance(x.value, ast.Attribute) and x.value.attr == 'body' and isinstance(x.value.value, ast.Name) \
+                            and x.value.value.id == var:
+                        n_h += 1
+                        guarded = False
+                        for a in U.ancestors(x, pm):
+                            if isinstance(a, ast.If) and any(isinstance(y, ast.Attribute) and y.attr == 'body' and isinstance(y.value, ast.Name) and y.value.id == var
+                                                             for y in ast.walk(a.test)):
+                                guarded = True
+                            if isinstance(a, ast.BoolOp) and isinstance(a.op, ast.And) and any(
+                                    isinstance(y, ast.Attribute) and y.attr == 'body' and y is not x.value for v in a.values for y in ast.walk(v)):
+                                guarded = True
+                        ck.expect(guarded, 'C09-D2', f.qual, '%s.body.%s in the handler is guarded by the body' % (var, x.attr),
+                                  'the handler runs `%s.body.%s` although the error may come from before the body was created (the file writer '
+                                  'refusing the response header: --continue and a 200/416 answer): AttributeError on None leaves the processor and the '
+                                  'crawl stops' % (var, x.attr), f.loc(x))
+    if n_h < 2:
+        raise AnalysisError('expected body clean-up in the error handlers of the web and FTP processors (found %d)' % n_h)
 
     # ------------------------------------------------------------------ D6
     from .. import flow as F
